@@ -1111,7 +1111,8 @@ pub fn t_items(a: &[i64]) -> Val {
     }
     m = m.with_extern_types(exts);
     // a[7]: backend blocks of module m: 0 none, 1 [rust], 2 [rust, rust], 3 [rust, cpp, rust], 4 [cpp, rust], 5 [rust, rust, cpp, rust]
-    let rb = |i: usize| B::new("rust").with_prologue(format!("P{}", i)).with_epilogue(format!("E{}", i));
+    // the texts are valid Rust items, so that the emitted file can be pretty-printed and inspected
+    let rb = |i: usize| B::new("rust").with_prologue(format!("const P{}: u8 = 1;", i)).with_epilogue(format!("const E{}: u8 = 2;", i));
     let cb = || B::new("cpp").with_prologue("CP").with_epilogue("CE");
     let bks: Vec<B> = match a[7] {
         1 => vec![rb(1)],
@@ -1135,7 +1136,11 @@ pub fn t_items(a: &[i64]) -> Val {
             return outcome(Err(e));
         }
     }
-    outcome(st.build())
+    let r = st.build();
+    if let Ok(st) = &r {
+        maybe_emit(st);
+    }
+    outcome(r)
 }
 
 // ------------------------------------------------------------------------------------------------
